@@ -240,7 +240,8 @@ class AdaptiveThresholder(SoftBitThresholder):
         # Handle LLR inputs by converting to probability space for thresholding
         if self.input_type == InputType.LLR:
             # Convert LLRs to probabilities using sigmoid: P(bit=0) = 1 / (1 + exp(-LLR))
-            x_prob = torch.sigmoid(x)
+            # P(bit=1) = sigmoid(-LLR): a positive LLR means bit 0
+            x_prob = torch.sigmoid(-x)
         else:
             x_prob = x
 
